@@ -1358,6 +1358,11 @@ func (ch *checker) check(k *tcase, withModel bool) *tracer {
 		ch.heapCheck(k)
 	}
 	// ---------------- correspondence
+	if withModel && r.panicked && !r.timedOut && t.steps < 100000 {
+		// the model has the Go panics as explicit results: it must say "panic" too
+		ans := ch.m.Ask(k.request(false, 3000000, precTableString()))
+		c.Correspond("vm.EVM.Call/Create~Interp.call_top/create_top (panic)", string(mustJSON(k)), "panic", strings.SplitN(ans, " ", 2)[0])
+	}
 	if withModel && !r.panicked && !r.timedOut {
 		fuelcap := 3000000
 		if t.steps > 2500000 {
